@@ -78,6 +78,7 @@ class Gen:
         self.zl: set[int] = set()     # zeros_like results (moved around)
         self.bc: set[int] = set()     # boolean constants (moved around)
         self.cb: set[int] = set()     # comparison / bitwise results (moved)
+        self.bw: set[int] = set()     # bitwise results (moved)
         self.noinput: set[int] = set()  # functions of loop indices only
 
     # {{{ primitives
@@ -113,10 +114,19 @@ class Gen:
                 return None
             if any(s > 12 for s in v.a.shape):
                 return None
+        if isinstance(v.a, np.ndarray) and v.kind in "fc" \
+                and op not in MOVEMENT and any(
+                    a[0] == "n" and a[1] in self.bw for a in args) \
+                and not self.boolean(1, 12):
+            # known finding C01-loopy-bitwise-under-cast
+            return None
         node = {"op": op, "args": args}
         if params:
             node["p"] = params
         idx = self.push(node, v)
+        if op in npref.BITWISE or (op in MOVEMENT and any(
+                a[0] == "n" and a[1] in self.bw for a in args)):
+            self.bw.add(idx)
         if op == "zeros_like" or (op in MOVEMENT and args and args[0][0] == "n"
                                   and args[0][1] in self.zl):
             self.zl.add(idx)
@@ -128,7 +138,10 @@ class Gen:
                     "stack", "concatenate") else any(r in s for r in refs))
         if (op in ("zeros", "ones", "full") and v.kind == "b") or moved(self.bc):
             self.bc.add(idx)
-        if op in npref.COMPARE + npref.BITWISE or moved(self.cb):
+        if op in npref.COMPARE + npref.BITWISE or moved(self.cb) or (
+                op in ("sum", "prod", "amax", "amin")
+                and (params or {}).get("axis") == [] and refs
+                and refs[0] in self.cb):
             self.cb.add(idx)
         if all(r in self.noinput for r in refs) and op not in (
                 "placeholder", "data"):
@@ -939,8 +952,14 @@ class Gen:
         """an integer index array with entries in [-n, n-1]."""
         mode = _w(self.draw, [(4, "fresh"), (2, "mod")])
         if mode == "mod":
-            src = self.pick(lambda w: w.kind in "iu" and list(w.shape) == list(
-                shape))
+            # (inputs only: an index expression with a cast under '%' is the
+            # known finding C01-loopy-index-cast)
+            inputs = {k for k, nd in enumerate(self.nodes)
+                      if nd["op"] in ("placeholder", "data")}
+            cands = [k for k in self.arrays(
+                lambda w: w.kind in "iu" and list(w.shape) == list(shape))
+                if k in inputs or self.boolean(1, 12)]
+            src = self.choice(cands) if cands else None
             if src is not None:
                 r = self.try_op("mod", [["n", src], ["py", n]])
                 if r is not None:
